@@ -98,6 +98,37 @@ func genC07(e *emitter, tier string, seed uint64) {
 			}
 		}
 	}
+	// CHECKMULTISIG with fewer signatures than (valid) keys and signatures that fail at every stage: empty, junk that is not
+	// DER, DER that does not parse as a signature, a well-formed signature of nothing — each is tried against several keys
+	{
+		ks := []keyPair{genKey(r), genKey(r), genKey(r)}
+		junk := [][]byte{{}, {0x01}, append(r.bytes(8), 0x01), {0x30, 0x06, 0x02, 0x01, 0x01, 0x02, 0x01, 0x01, 0x01}, {0x30, 0x06, 0x02, 0x01, 0x00, 0x02, 0x01, 0x00, 0x41},
+			{0x30, 0x02, 0x02, 0x00, 0x01}, append(append([]byte{0x30, 0x44, 0x02, 0x20}, r.bytes(32)...), append([]byte{0x02, 0x20}, append(r.bytes(32), 0x41)...)...), append(r.bytes(71), 0x01)}
+		for n := 2; n <= 3; n++ {
+			for m := 1; m <= n; m++ {
+				lock := smallInt(m)
+				for i := 0; i < n; i++ {
+					lock = append(lock, rawPush(ks[i].pubC)...)
+				}
+				lock = append(append(lock, smallInt(n)...), 0xae)
+				for _, j1 := range junk {
+					for _, j2 := range junk[:4] {
+						unlock := []byte{0x00}
+						for i := 0; i < m; i++ {
+							if i == 0 {
+								unlock = append(unlock, rawPush(j1)...)
+							} else {
+								unlock = append(unlock, rawPush(j2)...)
+							}
+						}
+						for _, fl := range []int{0, fNullFail, fDERSig, fStrictEnc, fForkID, fAfterGenesis} {
+							total(fl, unlock, lock, 1, 0)
+						}
+					}
+				}
+			}
+		}
+	}
 	// every opcode with a number beyond the machine-word range on top of, and second on, the stack (post-Genesis numbers
 	// are unbounded: any conversion to a machine integer inside an opcode must be guarded by a comparison on the big value)
 	{
